@@ -156,7 +156,7 @@ func scenC06Paging(w *vsim.World, spec *vsim.Spec) {
 		}
 		return rep
 	}
-	client := &arvados.Client{APIHost: api.host, AuthToken: "xyzzy", Client: &http.Client{Transport: c.net}, Timeout: 5 * time.Minute}
+	client := &arvados.Client{APIHost: api.host, AuthToken: "xyzzy", Client: &http.Client{Transport: canonTransport{c.net}}, Timeout: 5 * time.Minute}
 	var err error
 	returned := false
 	w.Spawn("scanner", func() {
@@ -185,10 +185,10 @@ func scenC06Paging(w *vsim.World, spec *vsim.Spec) {
 	if err != nil {
 		w.Probe("scan-failed")
 		if mutRate == 0 {
-			// not a violation of the property (failing is allowed), but without any
-			// mutation a scan of a correct server has no reason to fail: flag it so that
-			// it is looked at.
-			w.Violation("c06/scan-fails-without-any-mutation", "EachCollection failed on a static table: %v", err)
+			// failing is allowed by the property, but a correct server with a static table
+			// gives the scan no reason to fail: that would make the check vacuous, so it is
+			// reported as a problem of the set-up, not as a violation.
+			w.Infra("EachCollection failed on a static table served by the API model: %v", err)
 		}
 		w.SetEndState("scan-error")
 		return
@@ -366,13 +366,12 @@ func scenC06Abort(w *vsim.World, spec *vsim.Spec) {
 	kind := w.Choose("failure kind", 6)
 	var failedKind string
 	var failedSeq int
-	var failedAt time.Time
 	failedPath := ""
 	c.intercept = func(rk string, r *vsim.NetRequest, rep *vsim.NetReply) *vsim.NetReply {
 		if c.reqN != k || rep == nil {
 			return rep
 		}
-		failedKind, failedSeq, failedAt, failedPath = rk, c.reqN, time.Now(), r.Host+r.Path
+		failedKind, failedSeq, failedPath = rk, c.reqN, r.Host+r.Path
 		lat := rep.Latency
 		switch kind {
 		case 0, 1, 2:
@@ -430,7 +429,7 @@ func scenC06Abort(w *vsim.World, spec *vsim.Spec) {
 	}
 	var after []string
 	for _, rl := range c.recv {
-		if rl.seq <= failedSeq || !rl.at.After(failedAt) {
+		if rl.seq <= failedSeq {
 			continue
 		}
 		if rl.kind == "trash" && len(rl.trash) > 0 {
